@@ -24,7 +24,9 @@ KEYWORDS = ["as", "break", "const", "continue", "crate", "else", "enum", "extern
             "try",                                                              # reserved
             "union", "gen"]                                                     # weak / 2024-reserved
 STYLES = ["camelCase", "snake_case", "PascalCase", "SCREAMING_CASE", "_lead", "x1", "_1", "a_1b", "_", "__double", "trailing_",
-          "mixed_Snake_Case", "ALLCAPS", "a"]
+          "mixed_Snake_Case", "ALLCAPS", "a",
+          # acronym-style names: snake_case followed by a camelCase rule does not give them back
+          "userID", "iOSVersion", "isHTML5", "HTTPServer", "aB"]
 CONTROLS = ["name", "value", "fora", "types", "selfish", "Selfie", "asyncx", "tryit", "boxed", "matcher"]
 POSITIONS = ["response_field", "alias", "variable", "input_field", "oneof_member", "enum_value", "id_field", "optional_id_alias",
              "alias_of_own_rust_name", "recursive_input_field", "object_field"]
